@@ -132,7 +132,9 @@ fn check_point(base: &Base, sc: &Scenario, cx: &Cx, key: &Key, torn: bool, n: &m
                 let l = ops::list_entries(&w.arch, &None, &Sel::Band(new_id), "/", &pat, 100_000);
                 ensure!(l.result.is_ok() && l.panic.is_none(), "C03/interrupted-version-listing-failed", "{}", l.describe());
                 let gp: Vec<String> = l.result.unwrap().iter().map(|e| e.apath.to_string()).collect();
-                let wp: Vec<&str> = rp.iter().copied().filter(|p| *p != first_file.0.apath).collect();
+                // an anchored pattern excludes the path and everything beneath it (in a stitched
+                // listing an older band may still hold children of what is now a file)
+                let wp: Vec<&str> = rp.iter().copied().filter(|p| !tree::under(&first_file.0.apath, p)).collect();
                 ensure!(
                     gp.iter().map(|s| s.as_str()).eq(wp.iter().copied()),
                     "C03/interrupted-version-excluded-listing",
